@@ -11,6 +11,8 @@ import (
 	"encoding/json"
 	"fmt"
 	"os"
+	"runtime"
+	"time"
 )
 
 type vector struct {
@@ -174,4 +176,20 @@ func Count(bs ...bool) int {
 		}
 	}
 	return n
+}
+
+// LiveGoroutines lets every runnable goroutine run to quiescence and returns
+// how many goroutines exist (natively: runtime.NumGoroutine after settling; in
+// the engine: goroutines started by the harness that have not finished).
+func LiveGoroutines() int {
+	prev := -1
+	for i := 0; i < 200; i++ {
+		n := runtime.NumGoroutine()
+		if n == prev && i > 20 {
+			return n
+		}
+		prev = n
+		time.Sleep(time.Millisecond)
+	}
+	return prev
 }
